@@ -44,6 +44,7 @@ namespace sim
 		, m_num_server_out_bytes(0)
 		, m_num_in_bytes(0)
 		, m_close(false)
+		, m_generation(0)
 	{
 		address local_ip = ios.get_ips().front();
 		if (local_ip.is_v4())
@@ -81,11 +82,15 @@ namespace sim
 		// read http request
 		m_client_connection.async_read_some(asio::buffer(
 			&m_client_in_buffer[0], sizeof(m_client_in_buffer))
-			, std::bind(&http_proxy::on_read_request, this, _1, _2));
+			, std::bind(&http_proxy::on_read_request, this, m_generation, _1, _2));
 	}
 
-	void http_proxy::on_read_request(error_code const& ec, size_t bytes_transferred) try
+	void http_proxy::on_read_request(int const generation, error_code const& ec
+		, size_t bytes_transferred) try
 	{
+		// this operation belongs to a connection that's been closed since
+		if (generation != m_generation) return;
+
 		if (ec)
 		{
 			std::printf("http_proxy::on_read_request: (%d) %s\n"
@@ -118,7 +123,7 @@ namespace sim
 		m_client_connection.async_read_some(asio::buffer(
 			&m_client_in_buffer[m_num_client_in_bytes]
 			, sizeof(m_client_in_buffer) - m_num_client_in_bytes)
-			, std::bind(&http_proxy::on_read_request, this, _1, _2));
+			, std::bind(&http_proxy::on_read_request, this, m_generation, _1, _2));
 	}
 	catch (std::runtime_error& e)
 	{
@@ -211,7 +216,7 @@ namespace sim
 				char port_str[10];
 				std::snprintf(port_str, sizeof(port_str), "%d", port);
 				m_resolver.async_resolve(host, port_str
-					, std::bind(&http_proxy::on_domain_lookup, this, _1, _2));
+					, std::bind(&http_proxy::on_domain_lookup, this, m_generation, _1, _2));
 				return;
 			}
 			open_forward_connection(target);
@@ -224,9 +229,12 @@ namespace sim
 		write_server_send_buffer();
 	}
 
-	void http_proxy::on_domain_lookup(boost::system::error_code const& ec
+	void http_proxy::on_domain_lookup(int const generation
+		, boost::system::error_code const& ec
 		, const asio::ip::tcp::resolver::results_type ips)
 	{
+		if (generation != m_generation) return;
+
 		if (ec || ips.empty())
 		{
 			if (ec)
@@ -251,7 +259,7 @@ namespace sim
 		std::printf("http_proxy: async_connect: %s:%d\n"
 			, target.address().to_string().c_str(), target.port());
 		m_server_connection.async_connect(target
-			, std::bind(&http_proxy::on_connected, this, _1));
+			, std::bind(&http_proxy::on_connected, this, m_generation, _1));
 	}
 
 	void http_proxy::error(int code, char const* message)
@@ -260,11 +268,20 @@ namespace sim
 		memcpy(m_in_buffer, send_buffer.data(), send_buffer.size());
 		asio::async_write(m_client_connection, asio::buffer(
 			&m_in_buffer[0], send_buffer.size())
-			, std::bind(&http_proxy::close_connection, this));
+			, std::bind(&http_proxy::on_error_sent, this, m_generation));
 	}
 
-	void http_proxy::on_connected(boost::system::error_code const& ec)
+	void http_proxy::on_error_sent(int const generation)
 	{
+		if (generation != m_generation) return;
+		close_connection();
+	}
+
+	void http_proxy::on_connected(int const generation
+		, boost::system::error_code const& ec)
+	{
+		if (generation != m_generation) return;
+
 		m_connecting = false;
 		if (ec)
 		{
@@ -280,7 +297,7 @@ namespace sim
 
 		m_server_connection.async_read_some(
 			asio::buffer(m_in_buffer, sizeof(m_in_buffer))
-			, std::bind(&http_proxy::on_server_receive, this, _1, _2));
+			, std::bind(&http_proxy::on_server_receive, this, m_generation, _1, _2));
 	}
 
 	void http_proxy::write_server_send_buffer()
@@ -289,11 +306,14 @@ namespace sim
 		m_writing_to_server = true;
 		m_server_connection.async_write_some(asio::buffer(
 			&m_server_out_buffer[0], m_num_server_out_bytes)
-			, std::bind(&http_proxy::on_server_write, this, _1, _2));
+			, std::bind(&http_proxy::on_server_write, this, m_generation, _1, _2));
 	}
 
-	void http_proxy::on_server_write(error_code const& ec, size_t bytes_transferred)
+	void http_proxy::on_server_write(int const generation, error_code const& ec
+		, size_t bytes_transferred)
 	{
+		if (generation != m_generation) return;
+
 		m_writing_to_server = false;
 		if (ec)
 		{
@@ -312,9 +332,12 @@ namespace sim
 	}
 
 	// we received some data from the server, forward it to the server
-	void http_proxy::on_server_receive(boost::system::error_code const& ec
+	void http_proxy::on_server_receive(int const generation
+		, boost::system::error_code const& ec
 		, std::size_t bytes_transferred)
 	{
+		if (generation != m_generation) return;
+
 		if (ec)
 		{
 			std::printf("http_proxy: error reading from server: (%d) %s\n"
@@ -324,12 +347,14 @@ namespace sim
 		}
 
 		asio::async_write(m_client_connection, asio::buffer(&m_in_buffer[0], bytes_transferred)
-			, std::bind(&http_proxy::on_server_forward, this, _1, _2));
+			, std::bind(&http_proxy::on_server_forward, this, m_generation, _1, _2));
 	}
 
-	void http_proxy::on_server_forward(error_code const& ec
+	void http_proxy::on_server_forward(int const generation, error_code const& ec
 		, size_t)
 	{
+		if (generation != m_generation) return;
+
 		if (ec)
 		{
 			std::printf("http_proxy: error writing to client: (%d) %s\n"
@@ -340,7 +365,7 @@ namespace sim
 
 		m_server_connection.async_read_some(
 			sim::asio::buffer(m_in_buffer, sizeof(m_in_buffer))
-			, std::bind(&http_proxy::on_server_receive, this, _1, _2));
+			, std::bind(&http_proxy::on_server_receive, this, m_generation, _1, _2));
 	}
 
 	void http_proxy::stop()
@@ -351,10 +376,16 @@ namespace sim
 
 	void http_proxy::close_connection()
 	{
+		// whatever is still outstanding for this connection (including
+		// operations that completed but whose handlers have not run yet) must
+		// not touch the next one
+		++m_generation;
+
 		m_num_client_in_bytes = 0;
 		m_num_server_out_bytes = 0;
 		m_num_in_bytes = 0;
 		m_connecting = false;
+		m_writing_to_server = false;
 
 		error_code err;
 		m_client_connection.close(err);
